@@ -17,7 +17,12 @@ Faults == {"good", "altered", "truncated", "extended", "empty", "foreign", "erro
 \* the only class whose hash equals the requested id
 HashMatches(c) == c = "good"
 
-Apis   == {"LoadRaw", "LoadUnpacked", "LoadBlob", "LoadBlobsFromPack"}
+\* CheckPack is the read behind `check --read-data` (every blob of a pack against its id, the pack against its
+\* name); it hands out a verdict instead of bytes: no error = "what I read matches its address"
+Apis   == {"LoadRaw", "LoadUnpacked", "LoadBlob", "LoadBlobsFromPack", "CheckPack"}
+\* what is stored under the target: "good", or "misaddressed" = an intact pack (name = hash of its bytes, valid
+\* MACs) that holds a blob under an id which is not the hash of its plaintext (damaged before it was encrypted)
+StoredStates == {"good", "misaddressed"}
 Caches == {"none", "good", "bad"}
 
 \* fault scripts: attempt i of a read of the target file is served script[i]; the last element repeats
@@ -42,8 +47,10 @@ SaveOK(r) == ~r.save_err /\ r.id_ok /\ r.present
 \*   r.results  one entry per value handed out (1 for Load*, one per blob callback for LoadBlobsFromPack):
 \*              [err |-> an error was reported, hash_ok |-> sha256(value) = requested id,
 \*               data |-> bytes were handed out together with the error]
+\*              CheckPack: one entry, hash_ok |-> no error was reported and everything the read was served
+\*              does match its address (pack bytes vs name, every blob vs its id; driver's own SHA-256)
 \*   r.attempts number of backend reads of the target the repository made
-Healthy(r) == (\A i \in DOMAIN r.script : r.script[i] = "good") /\ r.cache # "bad"
+Healthy(r) == (\A i \in DOMAIN r.script : r.script[i] = "good") /\ r.cache # "bad" /\ r.stored = "good"
 
 ReadOK(r) ==
   /\ ~r.panic
@@ -56,6 +63,6 @@ ReadOK(r) ==
 RecOK(r) ==
   CASE r.op = "stored" -> StoredOK(r)
     [] r.op = "save"   -> SaveOK(r)
-    [] r.op = "read"   -> r.api \in Apis /\ r.cache \in Caches /\ (\A i \in DOMAIN r.script : r.script[i] \in Faults) /\ ReadOK(r)
+    [] r.op = "read"   -> r.api \in Apis /\ r.cache \in Caches /\ r.stored \in StoredStates /\ (\A i \in DOMAIN r.script : r.script[i] \in Faults) /\ ReadOK(r)
     [] OTHER           -> FALSE
 =============================================================================
